@@ -1,12 +1,14 @@
 package metaworld
 
 import (
+	"encoding/base64"
 	"errors"
 	"fmt"
 	"sort"
 
 	iec "github.com/nspcc-dev/neofs-node/internal/ec"
 	ierrors "github.com/nspcc-dev/neofs-node/internal/errors"
+	objectcore "github.com/nspcc-dev/neofs-node/pkg/core/object"
 	meta "github.com/nspcc-dev/neofs-node/pkg/local_object_storage/metabase"
 	apistatus "github.com/nspcc-dev/neofs-sdk-go/client/status"
 	"github.com/nspcc-dev/neofs-sdk-go/object"
@@ -65,28 +67,58 @@ func classify(present bool, err error) Cls {
 
 // AddrObs is what every view says about one address.
 type AddrObs struct {
-	Exists, ExistsNoExp Cls
-	Get, GetRaw         Cls
-	GetHdrOK            bool // returned header has the right ID, type and payload size
-	Locked              bool
-	EC                  Cls    // ResolveECPart(cnr, addr, rule 0 / index 0) error class
-	ECPart              string // resolved part (universe name), "" if none
-	InAll, InRoot, InPhy, InAttr, InType bool // search results: unfiltered, ROOT, PHY, kind=doc, type=REGULAR
-	InList              bool
-	InExpired           bool
-	InGarbage           bool // listed by garbage iteration of its container
-	Errs                string
+	Exists, ExistsNoExp                  Cls
+	Get, GetRaw                          Cls
+	GetHdrOK                             bool // returned header has the right ID, type and payload size
+	Locked                               bool
+	EC                                   Cls    // ResolveECPart(cnr, addr, rule 0 / index 0) error class
+	ECPart                               string // resolved part (universe name), "" if none
+	InAll, InRoot, InPhy, InAttr, InType bool   // search results: unfiltered, ROOT, PHY, kind=doc, type=REGULAR
+	InList                               bool
+	InExpired                            bool
+	InGarbage                            bool // listed by garbage iteration of its container
+	Errs                                 string
 }
 
 // Obs is one full observation of the world through its public read views.
 type Obs struct {
 	A          map[string]*AddrObs
-	EC1        Cls    // ResolveECPart(cA, E, rule 0 / index 1)
+	EC1        Cls // ResolveECPart(cA, E, rule 0 / index 1)
 	EC1Part    string
 	ListPaged  []string // ListWithCursor with count=2 pages, concatenated
 	ListFull   []string
 	CnrGarbage [NCnr]bool // GetGarbage reports the container as removable (empty object list)
 	Foreign    []string   // anything a view returned that is not in the universe
+}
+
+// search is DB.Select (the repository's test wrapper around DB.Search: preprocess the query, page
+// until the cursor is empty) with a page of 16 instead of 65535 results.
+func (w *World) search(c int, fs object.SearchFilters) ([]oid.Address, error) {
+	var (
+		res    []oid.Address
+		attrs  []string
+		cursor string
+	)
+	if len(fs) > 0 {
+		attrs = append(attrs, fs[0].Header())
+	}
+	for {
+		ofs, cur, err := objectcore.PreprocessSearchQuery(fs, attrs, cursor)
+		if err != nil {
+			return nil, err
+		}
+		items, next, err := w.DB.Search(Cnrs[c], ofs, attrs, cur, 16)
+		if err != nil {
+			return nil, err
+		}
+		for i := range items {
+			res = append(res, oid.NewAddress(Cnrs[c], items[i].ID))
+		}
+		if len(next) == 0 {
+			return res, nil
+		}
+		cursor = base64.StdEncoding.EncodeToString(next)
+	}
 }
 
 func (w *World) Observe() *Obs {
@@ -139,9 +171,9 @@ func (w *World) Observe() *Obs {
 	}
 
 	sel := func(c int, fs object.SearchFilters, set func(*AddrObs)) {
-		res, err := w.DB.Select(Cnrs[c], fs)
+		res, err := w.search(c, fs)
 		if err != nil {
-			o.Foreign = append(o.Foreign, fmt.Sprintf("Select error: %v", err))
+			o.Foreign = append(o.Foreign, fmt.Sprintf("Search error: %v", err))
 			return
 		}
 		for _, ad := range res {
